@@ -488,10 +488,42 @@ class MapfileTransformer(Transformer):
             [str(v.value) for v in t]
         )  # convert to string for boolean expressions e.g. (true)
 
-        if not self.quoter.in_parenthesis(exp):
+        if not self.is_enclosed(exp):
             t[0].value = f"({exp})"
 
         return t[0]
+
+    def is_enclosed(self, exp: str) -> bool:
+        """
+        Check if the whole expression is wrapped in one matching pair of parentheses.
+        E.g. "(a) + (b)" starts and ends with parentheses, but is not enclosed by them
+        """
+        exp = exp.strip()
+        if not (exp.startswith("(") and exp.endswith(")")):
+            return False
+
+        depth = 0
+        quote = None
+        skip = False
+
+        for i, ch in enumerate(exp):
+            if skip:
+                skip = False
+            elif ch == "\\":
+                skip = True  # ignore any escaped character
+            elif quote:
+                if ch == quote:
+                    quote = None
+            elif ch in ("'", '"', "`"):
+                quote = ch
+            elif ch == "(":
+                depth += 1
+            elif ch == ")":
+                depth -= 1
+                if depth == 0 and i < len(exp) - 1:
+                    return False
+
+        return True
 
     def add(self, t):
         assert len(t) == 2
@@ -520,7 +552,11 @@ class MapfileTransformer(Transformer):
 
     def neg(self, t):
         assert len(t) == 1
-        t[0].value = f"-{t[0].value}"
+        if str(t[0].value).startswith("-"):
+            # keep repeated minus signs apart or they are re-parsed as a single token
+            t[0].value = f"- {t[0].value}"
+        else:
+            t[0].value = f"-{t[0].value}"
         return t[0]
 
     def runtime_var(self, t):
